@@ -2,6 +2,7 @@ package gen
 
 import (
 	"bufio"
+	"io"
 	"io/fs"
 	"log"
 	"os"
@@ -140,7 +141,7 @@ func (g Generate) findProtos(dir string, recurse bool) ([]string, error) {
 	return protoList, err
 }
 
-// A basic check for whether a proto file has a go_package option declared.
+// protoFileHasGoPackage checks whether a proto file declares the go_package option.
 func protoFileHasGoPackage(path string) (bool, error) {
 	f, err := os.Open(path)
 	if err != nil {
@@ -148,17 +149,139 @@ func protoFileHasGoPackage(path string) (bool, error) {
 	}
 	defer f.Close()
 
-	// Read line-by-line instead of loading the whole file into memory
-	scanner := bufio.NewScanner(f)
-	if err != nil {
-		return false, err
-	}
-	for scanner.Scan() {
-		if strings.Contains(scanner.Text(), "option go_package =") {
-			return true, nil
+	// Read byte-by-byte through a buffer instead of loading the whole file into memory
+	return declaresGoPackage(bufio.NewReader(f))
+}
+
+// Where declaresGoPackage is in the proto source.
+const (
+	inCode             = iota // between tokens
+	inIdent                   // in an identifier, keyword or number
+	afterSlash                // after a '/' that may open a comment
+	inLineComment             // after //
+	inBlockComment            // after /*
+	inBlockCommentStar        // after a '*' inside a block comment
+	inString                  // in a string literal
+	inStringEscape            // after a backslash in a string literal
+)
+
+// declaresGoPackage reports whether the proto source read from r holds the declaration
+//
+//	option go_package = "...";
+//
+// that is the tokens `option`, `go_package`, `=` and a string literal in a row, whatever white
+// space (none, several blanks, tabs, line breaks) or comments stand between them. Text inside
+// // and /* */ comments and inside string literals is not code: a commented-out option does not
+// count. It reads r once and stops at the declaration.
+func declaresGoPackage(r io.ByteReader) (bool, error) {
+	state := inCode
+	quote := byte(0)  // the quote character that opened the string literal
+	ident := []byte{} // the identifier read so far
+	matched := 0      // how many tokens of the declaration the last tokens read are
+
+	// token takes note of the next token: an identifier ('a', with its text), a string literal
+	// ('"') or any other character (the character itself).
+	token := func(kind byte, text string) {
+		switch {
+		case matched == 0 && kind == 'a' && text == "option":
+			matched = 1
+		case matched == 1 && kind == 'a' && text == "go_package":
+			matched = 2
+		case matched == 2 && kind == '=':
+			matched = 3
+		case matched == 3 && kind == '"':
+			matched = 4
+		case kind == 'a' && text == "option":
+			matched = 1
+		default:
+			matched = 0
 		}
 	}
-	return false, nil
+
+	for matched < 4 {
+		c, err := r.ReadByte()
+		if err == io.EOF {
+			break
+		}
+		if err != nil {
+			return false, err
+		}
+
+		// An identifier or a lone '/' ends at the first character that does not continue it;
+		// that character is then looked at as the start of the next token.
+		if state == inIdent {
+			if isIdentChar(c) {
+				ident = append(ident, c)
+				continue
+			}
+			token('a', string(ident))
+			state = inCode
+		} else if state == afterSlash {
+			if c == '/' {
+				state = inLineComment
+				continue
+			}
+			if c == '*' {
+				state = inBlockComment
+				continue
+			}
+			token('/', "")
+			state = inCode
+		}
+
+		switch state {
+		case inCode:
+			switch {
+			case c == ' ' || (c >= '\t' && c <= '\r'):
+				// white space separates tokens
+			case isIdentChar(c):
+				ident = append(ident[:0], c)
+				state = inIdent
+			case c == '/':
+				state = afterSlash
+			case c == '"' || c == '\'':
+				quote = c
+				state = inString
+			default:
+				token(c, "")
+			}
+		case inLineComment:
+			if c == '\n' {
+				state = inCode
+			}
+		case inBlockComment:
+			if c == '*' {
+				state = inBlockCommentStar
+			}
+		case inBlockCommentStar:
+			if c == '/' {
+				state = inCode
+			} else if c != '*' {
+				state = inBlockComment
+			}
+		case inString:
+			switch c {
+			case quote, '\n': // a literal ends at its quote; a line break ends an unterminated one
+				token('"', "")
+				state = inCode
+			case '\\':
+				state = inStringEscape
+			}
+		case inStringEscape:
+			state = inString
+		}
+	}
+
+	// The end of the file ends a string literal that was left open.
+	if state == inString || state == inStringEscape {
+		token('"', "")
+	}
+	return matched == 4, nil
+}
+
+// isIdentChar reports whether c can be part of an identifier, keyword or number.
+func isIdentChar(c byte) bool {
+	return c == '_' || (c >= '0' && c <= '9') || (c >= 'A' && c <= 'Z') || (c >= 'a' && c <= 'z')
 }
 
 type logPipe struct{}
